@@ -38,7 +38,9 @@ type Op struct {
 	NoCtx     bool   `json:"noctx,omitempty"`  // pinset / unpinset: no file context in the call
 	L         int    `json:"l,omitempty"`      // upchunk: index into the file's chunk set
 	BatchSize uint64 `json:"batchsize,omitempty"`
-	Inner     []Op   `json:"inner,omitempty"` // gc: executed between candidate selection and eviction
+	Inner     []Op   `json:"inner,omitempty"` // gc: executed inside the run, at the point At (f = -1: on the candidate itself)
+	At        string `json:"at,omitempty"`    // gc: "" after candidate selection; "entry": right before the AtK-th DelFile call; "after": right after it
+	AtK       int    `json:"atk,omitempty"`
 }
 
 type Hist struct {
@@ -124,6 +126,10 @@ type Runner struct {
 	prev     localstore.VerifDump
 	prevCI   string
 	prevRoots map[string]bool
+	// collection run in progress: what the oracle needs about the interleaving points
+	GcEntries []GcEntry
+	PinDelta  map[string]int64 // pin count changes made by the operations injected into the run
+	candFile  int
 	// statistics
 	Recycled int
 	Deleted  int
@@ -560,7 +566,18 @@ func (r *Runner) flush() {
 
 // ---------------------------------------------------------------- execution
 
+// GcEntry: the store right before one DelFile call of a run (after an injected operation, if any).
+type GcEntry struct {
+	Root  string
+	S     Snap
+	Dirty bool  // the root was in dirtyAddresses
+	Post  *Snap // after an operation injected right after the call
+}
+
 func (r *Runner) file(i int) *FileInfo {
+	if i == -1 && r.candFile >= 0 && r.candFile < len(r.Files) {
+		return &r.Files[r.candFile]
+	}
 	if i < 0 || i >= len(r.Files) {
 		return &r.Files[0]
 	}
@@ -720,6 +737,68 @@ func (r *Runner) Exec(op Op, inner bool) {
 		begin := fmt.Sprintf("XGcBegin %d %d", target, bs)
 		started := false
 		gcBefore := len(r.prev.GC)
+		r.GcEntries = nil
+		r.PinDelta = map[string]int64{}
+		fileOf := func(root []byte) int {
+			for i := range r.Files {
+				if bytes.Equal(r.Files[i].Root.Bytes(), root) {
+					return i
+				}
+			}
+			return -1
+		}
+		inject := func(root []byte) {
+			r.candFile = fileOf(root)
+			if r.candFile < 0 {
+				return
+			}
+			pre := r.Snap()
+			for _, in := range op.Inner {
+				r.Exec(in, true)
+			}
+			post := r.Snap()
+			for c, n := range post.Pin {
+				if n != pre.Pin[c] {
+					r.PinDelta[c] += int64(n) - int64(pre.Pin[c])
+				}
+			}
+			for c, n := range pre.Pin {
+				if _, ok := post.Pin[c]; !ok {
+					r.PinDelta[c] -= int64(n)
+				}
+			}
+			r.Run.Hist("gc.injected-at-" + map[string]string{"": "selection", "entry": "delfile-entry", "after": "after-delfile"}[op.At])
+		}
+		ncall := 0
+		r.S.OnDelFile = func(root boson.Address, real func() error) error {
+			k := ncall
+			ncall++
+			if op.At == "entry" && op.AtK == k {
+				inject(root.Bytes())
+			}
+			_, dirtyNow := r.S.DB.VerifGCState()
+			e := GcEntry{Root: root.ByteString(), S: r.Snap(), Dirty: root.MemberOf(dirtyNow)}
+			err := real()
+			d, derr := r.S.DB.VerifDump()
+			if derr != nil {
+				panic(derr)
+			}
+			running, dirty := r.S.DB.VerifGCState()
+			p := r.S.Pyramid()
+			r.prevRoots = map[string]bool{}
+			for _, kk := range p.Roots {
+				r.prevRoots[kk] = true
+			}
+			r.emit("XGcStep "+r.ai(root.Bytes()), "YDone", d, running, dirty, r.coqCI(p))
+			r.Run.Hist("step.gc-delfile")
+			if op.At == "after" && op.AtK == k {
+				inject(root.Bytes())
+				ps := r.Snap()
+				e.Post = &ps
+			}
+			r.GcEntries = append(r.GcEntries, e)
+			return err
+		}
 		coll, done, err := r.S.DB.VerifCollectGarbage(func() {
 			started = true
 			d, e := r.S.DB.VerifDump()
@@ -728,10 +807,20 @@ func (r *Runner) Exec(op Op, inner bool) {
 			}
 			running, dirty := r.S.DB.VerifGCState()
 			r.emit(begin, "YLs (QGcBegin true)", d, running, dirty, "")
-			for _, in := range op.Inner {
-				r.Exec(in, true)
+			if op.At == "" && len(op.Inner) > 0 {
+				// f = -1 at this point: the oldest entry of the gc index (the first candidate)
+				var first []byte
+				if len(d.GC) > 0 {
+					first = d.GC[0].Address
+				}
+				r.candFile = fileOf(first)
+				if r.candFile < 0 {
+					r.candFile = 0
+				}
+				inject(r.Files[r.candFile].Root.Bytes())
 			}
 		})
+		r.S.OnDelFile = nil
 		localstore.VerifSetGCBatchSize(prevBS)
 		_ = r.S.DB.VerifGCTriggered()
 		d, e := r.S.DB.VerifDump()
